@@ -47,7 +47,7 @@ def build_flags():
     src = 'build.ninja'
     if not defs or not incs:
         defs = FALLBACK_DEFS; incs = FALLBACK_INCS % dict(R=REPO); src = 'recorded copy'
-    if REPO != '/repo': incs = incs.replace('/repo/', REPO + '/')
+    if REPO != '/repo': incs = incs.replace('/repo/src', REPO + '/src')   # generated headers stay in /repo/_build
     return defs.split(), incs.split(), src
 
 def run(cmd, cwd=None, timeout=None, **kw):
